@@ -270,3 +270,48 @@ def _coerce_decl(self, st, val, t):
 
 
 _engine.Exec.coerce_decl = _coerce_decl
+
+
+# ------------------------------------------------------------------------------------------------------------
+# Row-sequence view of frames for the readers (C05 / C13): a frame is its list of rows; df[cols] projects every
+# row (row_proj), keeping order and index labels; a frame WITH an explicit index is the record {rows, index}.
+def row_proj(ex, st, rows, cols):
+    f = ex.uf("row_proj", ROW.sort(), TSeq(STR).sort(), ROW.sort())
+    ra = rows.t.arr(rows.z)
+    ex.used_lib.add("pandas: df[columns] selects the requested columns of every row, rows and index unchanged")
+    return ex.new_seq(st, ROW, ex.seq_len(rows), lambda j: f(ra[j], cols.z), rows.t.kind, "proj")
+
+
+_orig_subscript2 = Lib.subscript
+
+
+def _subscript2(self, ex, st, base, idx, node):
+    if isinstance(base.t, TSeq) and base.t.elem == ROW:
+        it = idx.t.inner if isinstance(idx.t, TOptT) else idx.t
+        if isinstance(it, TSeq) and it.elem == STR:
+            cols = ex.unwrap(st, idx, node, "column list")
+            return row_proj(ex, st, base, cols)
+    return _orig_subscript2(self, ex, st, base, idx, node)
+
+
+from .types import TOpt as TOptT  # noqa: E402
+Lib.subscript = _subscript2
+
+
+def b_row_proj(self, ex, st, node):
+    """spec: row_proj(row, columns)"""
+    r, c = ex.ev(st, node.args[0]), ex.ev(st, node.args[1])
+    if isinstance(c.t, TOptT):
+        c = SV(c.t.inner, c.t.val(c.z))
+    f = ex.uf("row_proj", ROW.sort(), TSeq(STR).sort(), ROW.sort())
+    return SV(ROW, f(r.z, c.z))
+
+
+Lib.b_row_proj = b_row_proj
+
+
+@method("seq", "to_pandas", stmt="pyarrow RecordBatch.to_pandas(): the rows of the batch with a fresh RangeIndex 0..n-1")
+def _to_pandas(ex, st, base, node, basenode):
+    n = ex.seq_len(base)
+    idx = ex.new_seq(st, INT, n, lambda j: j, "nd", "rangeindex")
+    return SV(RECORD, py={"rows": base, "index": idx})
